@@ -319,6 +319,13 @@ func runC13(c *Ctx) {
 					}
 				}
 			}
+			// directed episode: a cleave that takes every annotated supervoxel of a body (its per-body list must
+			// become empty), then a merge back
+			if o := w.open(); len(o) > 0 {
+				n := o[len(o)-1]
+				c13CleaveAllAnnotated(c, w, n)
+				checkNode(n)
+			}
 			for _, n := range w.nodes {
 				checkNode(n)
 			}
@@ -547,6 +554,96 @@ func runC13(c *Ctx) {
 
 // checkAnnViewsLoose: like checkAnnViews, but relationships that the oracle dropped as dangling (left behind by an
 // overwrite, which the property does not cover) are ignored by comparing without relationships where needed.
+// c13CleaveAllAnnotated: make one supervoxel of a multi-supervoxel body the only annotated one, cleave it.
+func c13CleaveAllAnnotated(c *Ctx, w *World, n *wnode) {
+	if n.lm == nil {
+		return
+	}
+	bodies := w.lmBodies(n)
+	var target uint64
+	for b, svs := range bodies {
+		if len(svs) >= 2 && (target == 0 || b < target) {
+			target = b
+		}
+	}
+	if target == 0 {
+		if !w.lmMerge(n) {
+			return
+		}
+		bodies = w.lmBodies(n)
+		for b, svs := range bodies {
+			if len(svs) >= 2 && (target == 0 || b < target) {
+				target = b
+			}
+		}
+		if target == 0 {
+			return
+		}
+	}
+	sv := bodies[target][len(bodies[target])-1]
+	svAt := func(p [3]int32) uint64 { return n.lm.vox[int(p[2])*lmN+int(p[1])][p[0]] }
+	inVol := func(p [3]int32) bool { return p[0] >= 0 && p[1] >= 0 && p[2] >= 0 && p[0] < lmN && p[1] < lmN && p[2] < lmN }
+	// remove the annotations that sit on the other supervoxels of the body
+	var del [][3]int32
+	for p := range n.ann {
+		if inVol(p) && n.lm.body(svAt(p)) == target && svAt(p) != sv {
+			del = append(del, p)
+		}
+	}
+	sort.Slice(del, func(i, j int) bool { return fmt.Sprint(del[i]) < fmt.Sprint(del[j]) })
+	for _, p := range del {
+		w.must("DELETE", fmt.Sprintf("node/%s/ann/element/%d_%d_%d", n.uuid, p[0], p[1], p[2]), nil)
+		delete(n.ann, p)
+		for q, e := range n.ann {
+			keep := []annRel{}
+			for _, rl := range e.Rels {
+				if rl.To != p {
+					keep = append(keep, rl)
+				}
+			}
+			e.Rels = keep
+			n.ann[q] = e
+		}
+		w.log("ann delete %v at v%d (episode)", p, n.v)
+	}
+	// two annotations on voxels of the chosen supervoxel
+	var els []annElem
+	for z := 0; z < lmN && len(els) < 2; z++ {
+		for y := 0; y < lmN && len(els) < 2; y += 3 {
+			for x := 0; x < lmN && len(els) < 2; x += 5 {
+				p := [3]int32{int32(x), int32(y), int32(z)}
+				if _, taken := n.ann[p]; !taken && svAt(p) == sv {
+					els = append(els, annElem{Pos: p, Kind: "PostSyn", Tags: []string{annTags[0]}, Prop: map[string]string{"n": "e"}, Rels: []annRel{}})
+				}
+			}
+		}
+	}
+	if len(els) == 0 {
+		return
+	}
+	body, _ := json.Marshal(els)
+	w.must("POST", "node/"+n.uuid+"/ann/elements", body)
+	for _, e := range els {
+		n.ann[e.Pos] = e
+	}
+	w.log("ann post %s at v%d (episode: the only annotated supervoxel of body %d is %d)", string(body), n.v, target, sv)
+	w.settle()
+	cb, _ := json.Marshal([]uint64{sv})
+	r := w.must("POST", fmt.Sprintf("node/%s/lm/cleave/%d", n.uuid, target), cb)
+	if !r.OK() {
+		return
+	}
+	var out struct{ CleavedLabel uint64 }
+	json.Unmarshal(r.Body, &out)
+	n.lm.m[sv] = out.CleavedLabel
+	if out.CleavedLabel >= w.nextSV {
+		w.nextSV = out.CleavedLabel + 1
+	}
+	w.log("lm cleave body %d svs [%d] -> %d at v%d (episode: takes every annotated supervoxel)", target, sv, out.CleavedLabel, n.v)
+	w.settle()
+	c.Count("episode: cleave takes every annotated supervoxel")
+}
+
 func checkAnnViewsLoose(c *Ctx, r *Rng, uuid, inst string, set map[[3]int32]annElem, bs int32, hist func() string) {
 	checkAnnViews(c, r, uuid, inst, set, bs, hist)
 }
